@@ -690,3 +690,42 @@ func VfH_C06_line_numeric() {
 	}
 	vfReach("end")
 }
+
+// H-C06-grapheme-emoji: the emoji rules GB9/GB11/GB12/GB13 keep state over arbitrarily long sequences
+// (ExtPict Extend* ZWJ ExtPict chains, regional-indicator pairs): sequences of 5 (6 thorough) runes over the
+// representatives of {Extended_Pictographic, Extend, ZWJ, Regional_Indicator, no class}.
+func vfEmojiReps() []rune {
+	seen := map[vfGraphemeKey]bool{}
+	var out []rune
+	for _, r := range vfReps {
+		c := ucd.LookupGraphemeBreakClass(r)
+		if c != nil && c != ucd.GraphemeBreakExtend && c != ucd.GraphemeBreakZWJ && c != ucd.GraphemeBreakRegional_Indicator {
+			continue
+		}
+		k := vfGraphemeKey{c, vfIsPic(r)}
+		if !seen[k] {
+			seen[k] = true
+			out = append(out, r)
+		}
+	}
+	return out
+}
+
+func VfH_C06_grapheme_emoji() {
+	reps := vfEmojiReps()
+	n := 5
+	if vfThorough() {
+		n = 5 + vfChoice("extra", 2)
+	}
+	text := make([]rune, n)
+	for i := range text {
+		text[i] = reps[vfInt("emojiRep", 0, len(reps)-1)]
+	}
+	var seg Segmenter
+	seg.Init(text)
+	want := vfGraphemeRef(text)
+	for i := 0; i <= n; i++ {
+		vfAssert((seg.attributes[i]&graphemeBoundary != 0) == want[i], "grapheme boundary differs from UAX #29 (GB rules)")
+	}
+	vfReach("end")
+}
